@@ -220,27 +220,46 @@ example :
 /-- Σ of the ten `TimeSeries` resolutions (≈ 150 days in ns). -/
 def tsSizeSum : Int := timeSeriesResolutions.sum
 
-/-- The every-level clause for the ten-level `TimeSeries`: STATEMENT ONLY. The general theorem
-`TSRange.range_aligned_exact` needs every resolution to divide the zero `time.Time` (year 1), which holds
-for 1 s … 1 day but not for the three week-based resolutions (their grid is relative to the zero time until
-the level's first advance); that case is covered by the differential run and the Go oracle only. -/
-def RangeAlignedStatementTimeSeries : Prop :=
-  ∀ (ops : List Op) (a b : Int), TSRange.timesFit tsSizeSum ops = true → TSRange.noClear ops = true →
-    TSRange.alignedPicked (TS.newTimeSeries.run ops) a b = true →
-    ((TS.newTimeSeries.run ops).range a b).2 = some ⟨obsIn a b 0 ops, false⟩
+/-- **C61, second clause, EVERY level of the ten-level `TimeSeries`** (1 s … 16 weeks, including the three
+week-based resolutions, whose grid is relative to the zero time until the level's first advance): for every
+history of adds (in or out of order, rollovers, far jumps), `Total`/`Latest`/`LatestBuckets`/`ComputeRange`
+reads and `Clear`s with `minDur ≤ t` and `t + Σ resolutions ≤ maxDur` for every add / clock time, a range
+aligned to the bucket grid of the level `ComputeRange` picks — the finest level whose retained window
+contains the start — and starting inside that window is reported exactly (no interpolation). -/
+theorem range_aligned_exact_timeseries (ops : List Op) (a b : Int)
+    (hin : TSRange.timesFit tsSizeSum ops = true)
+    (hal : TSRange.alignedPicked (TS.newTimeSeries.run ops) a b = true) :
+    ((TS.newTimeSeries.run ops).range a b).2 = some ⟨obsIn a b 0 ops, false⟩ :=
+  TSRange.range_aligned_exact 64 1000000000 _ (by decide) (by decide) (by decide) (by decide)
+    (by unfold TSRange.resOK; decide) (by decide) ops a b hin hal
+
+/-- Non-vacuity at a WEEK-based level (week grid = multiples of 604 800 s; W0 = 1 700 092 800 s): adds at
+W0+100 000 s, W0−300 000 s (out of order, previous week), W0+30 weeks+5 s (rolls every level up to 1 day over
+completely), W0+200 000 s (out of order again). The week-aligned range (W0, W0+1 week] is outside the 1-day
+level's window, so `ComputeRange` picks the 1-week level; it reports 5 + 9. -/
+def weekOps : List Op :=
+  [.add 1700192800000000000 5, .add 1699792800000000000 2, .add 1718236805000000000 1, .add 1700292800000000000 9]
+
+example :
+    TSRange.timesFit tsSizeSum weekOps = true ∧
+    TSRange.alignedPicked (TS.newTimeSeries.run weekOps) 1700092800000000000 1700697600000000000 = true ∧
+    (pickLevel 64 1700092800000000000 (TS.newTimeSeries.run weekOps).mergePending.levels).map (·.size) = some 604800000000000 ∧
+    obsIn 1700092800000000000 1700697600000000000 0 weekOps = 14 ∧
+    ((TS.newTimeSeries.run weekOps).range 1700092800000000000 1700697600000000000).2 = some ⟨14, false⟩ := by
+  decide +kernel
 
 /-- **C61, second clause, EVERY level — `MinuteHourSeries`** (60 buckets; 1 s and 1 min): for every history
 of adds (in or out of order, rollovers, far jumps) interleaved with `Total`/`Latest`/`LatestBuckets`/
 `ComputeRange`, a range aligned to the bucket grid of the level `ComputeRange` picks — the finest level whose
 retained window contains the start — and starting inside that window is reported exactly (the
 proportional-interpolation branch is not taken). Instance of `TSRange.range_aligned_exact`, which holds for
-every configuration whose resolutions are multiples of the finest one and divide the zero time. -/
+every configuration whose resolutions are multiples of the finest one (itself dividing the zero time). -/
 theorem range_aligned_exact (ops : List Op) (a b : Int)
-    (hin : TSRange.timesFit minuteHourSeriesResolutions.sum ops = true) (hnc : TSRange.noClear ops = true)
+    (hin : TSRange.timesFit minuteHourSeriesResolutions.sum ops = true)
     (hal : TSRange.alignedPicked (TS.newMinuteHourSeries.run ops) a b = true) :
     ((TS.newMinuteHourSeries.run ops).range a b).2 = some ⟨obsIn a b 0 ops, false⟩ :=
   TSRange.range_aligned_exact 60 1000000000 _ (by decide) (by decide) (by decide) (by decide)
-    (by unfold TSRange.resOK; decide) (by decide) ops a b hin hnc hal
+    (by unfold TSRange.resOK; decide) (by decide) ops a b hin hal
 
 /-- Non-vacuity (coarser level, out-of-order adds, a rollover of the 1 s level between adds), seconds after
 1 700 000 040: adds at 100.5, 3.2 (out of order), 250.5 (rolls the 60-bucket 1 s level over completely),
@@ -250,7 +269,7 @@ def coarseOps : List Op :=
   [.add 1700000140500000000 5, .add 1700000043200000000 2, .add 1700000290500000000 1, .add 1700000135000000000 9]
 
 example :
-    TSRange.timesFit minuteHourSeriesResolutions.sum coarseOps = true ∧ TSRange.noClear coarseOps = true ∧
+    TSRange.timesFit minuteHourSeriesResolutions.sum coarseOps = true ∧
     TSRange.alignedPicked (TS.newMinuteHourSeries.run coarseOps) 1700000100000000000 1700000160000000000 = true ∧
     (pickLevel 60 1700000100000000000 (TS.newMinuteHourSeries.run coarseOps).mergePending.levels).map (·.size) = some 60000000000 ∧
     obsIn 1700000100000000000 1700000160000000000 0 coarseOps = 14 ∧
